@@ -115,3 +115,11 @@ impl<'a, M: Flat + ?Sized, B: WriteBuffer + 'a> DerefMut for SendGuard<'a, M, B>
         unsafe { M::from_mut_bytes_unchecked(self.buffer) }
     }
 }
+
+/// Read-only verification hook (feature `verif`, off by default).
+#[cfg(feature = "verif")]
+impl<M: Flat + ?Sized, B: WriteBuffer> Sender<M, B> {
+    pub fn verif_buffer(&self) -> &B {
+        &self.buffer
+    }
+}
